@@ -34,13 +34,14 @@ def interval_cases(mode, tier):
     prec = 2.0 ** -4 if mode == "rat" else TINY
     n = 0
     for lo, hi in itertools.product(GRID11, repeat=2):
-        ops = []
+        # one case per flag combination: the evaluation of a case ends at its first disagreement, and a
+        # changed comparison usually disagrees on the open ends before it is *wrong* on the closed ones
         for il, iu in itertools.product((0, 1), repeat=2):
+            ops = []
             ops.append("ic.new 0 %s %s %d %d %s" % (H(lo), H(hi), il, iu, H(prec)))
-            # [+inf,+inf] / [-inf,-inf]: the known finding (corpus/C01/02-known-isEmpty-real.txt); asking here
-            # would end the evaluation of this case at the finding
-            if not (lo == hi and abs(lo) == INF and il and iu):
-                ops.append("ic.empty 0")
+            # every pair, [+inf,+inf] / [-inf,-inf] included (formerly a known finding, now repaired:
+            # corpus/C01/02-fixed-isEmpty-infinite.txt)
+            ops.append("ic.empty 0")
             ops.append("ic.fin 0")
             for v in GRID11:
                 ops.append("ic.correct 0 %s" % H(v))
@@ -52,7 +53,7 @@ def interval_cases(mode, tier):
                     if a <= b:
                         ops.append("ic.includes 0 %s %s" % (H(a), H(b)))
             n += 1
-        cases.append(["case iv%d %s" % (len(cases), mode)] + ops)
+            cases.append(["case iv%d %s" % (len(cases), mode)] + ops)
     return cases
 
 
@@ -68,11 +69,9 @@ def inter_cases(mode, tier, rng):
             if tier != "thorough" and mode == "flt" and rng.random() < 0.5:
                 continue
             pa, pb = rng.choice(precs), rng.choice(precs)
-            lo, hi = max(a[0], b[0]), min(a[1], b[1])
-            known = lo == hi and abs(lo) == INF       # intersection may be [+inf,+inf] / [-inf,-inf]
             chunk += ["ic.new 0 %s %s %d %d %s" % (H(a[0]), H(a[1]), a[2], a[3], H(pa)),
                       "ic.new 1 %s %s %d %d %s" % (H(b[0]), H(b[1]), b[2], b[3], H(pb)),
-                      "ic.inter 0 1 2"] + ([] if known else ["ic.empty 2"]) + ["ic.rel 0 1", "ic.interas 0 1", "ic.rel 0 2"]
+                      "ic.inter 0 1 2", "ic.empty 2", "ic.rel 0 1", "ic.interas 0 1", "ic.empty 0", "ic.rel 0 2"]
             if len(chunk) >= 350:
                 cases.append(["case in%d %s" % (len(cases), mode)] + chunk)
                 chunk = []
@@ -249,9 +248,195 @@ def history_case(rng, mode, idx, maxlen):
         elif r < 0.96:
             i = rng.randint(0, 2)
             ops.append(new_iv(i))       # replaces the register object; attached copies are not affected
-        else:
+        elif r < 0.975:
             ops.append("p.get %d" % k)
+        elif r < 0.98:
+            ops.append("p.con %d" % k)
+        elif r < 0.99:
+            ops += ["p.mh %d %d" % (k, rng.randint(0, 2)), "p.msgs"]
+        else:
+            j = rng.randint(0, 3)
+            ops.append("p.def %d %d" % (j, rng.randint(0, 1)))
+            live.add(j); attached[j] = None
+    ops.append("p.msgs")
     return ["case h%d %s %s" % (idx, vs.kind, mode)] + ops
+
+
+# --------------------------------------------------------------------------- the auto-correcting setter, directed
+def auto_cases(mode, tier, rng):
+    """the corners of the property's quantifier for the auto-correcting variant: intervals exactly 1e-9 wide,
+    one-sided infinite bounds, all four open/closed combinations, requests at +-1e3, at the bounds, one
+    precision step / TINY / one ulp on either side of them, constraint precisions 0 .. 1e-10 (the largest
+    that `wide_of_width` allows), a non-zero parameter precision set half way, and the three message-handler
+    settings (null pointer, capturing stream, sink)"""
+    cases = []
+    if mode == "flt":
+        shapes = [(a, a + 1e-9) for a in (0.0, 1.0, -1e3, 1e3 - 1e-9, 0.1, -0.3)]
+        shapes += [(-INF, b) for b in (0.0, -1e3, 1e3, 0.5)] + [(a, INF) for a in (0.0, -1e3, 1e3, -0.25)]
+        shapes += [(-1e3, 1e3), (0.0, 1.0), (-INF, INF), (1e-7, 2e-7)]
+        cprecs = [TINY, 1e-10, 0.0, 1e-11, 3e-13]
+        pprecs = [1e-10, 1e-3, 5e-10, 2e-12]
+        step = lambda b, d: math.nextafter(b, d * INF)
+    else:
+        u = 2.0 ** -50
+        shapes = [(0.0, 2.0 ** -29), (-2.0 ** -30, 0.0), (-INF, 0.0), (0.0, INF), (-INF, 2.0 ** -31), (-2.0 ** -32, INF), (-1.0, 1.0), (0.0, 0.25), (-INF, INF)]
+        cprecs = [64 * u, 0.0, 16 * u, 2.0 ** -34]
+        pprecs = [100 * u, 2.0 ** -36, 0.25]
+        step = lambda b, d: b + d * u
+    n = 0
+    for (lo, hi) in shapes:
+        for il, iu in itertools.product((0, 1), repeat=2):
+            cp = cprecs[n % len(cprecs)]
+            pp = pprecs[n % len(pprecs)]
+            n += 1
+            fin = [b for b in (lo, hi) if abs(b) != INF]
+            if lo == -INF and hi == INF:
+                start = 0.0
+            elif lo == -INF:
+                start = hi - (1.0 if mode == "flt" else 2.0 ** -33)
+            elif hi == INF:
+                start = lo + (1.0 if mode == "flt" else 2.0 ** -33)
+            else:
+                start = lo + (hi - lo) / 2
+            reqs = [1e3, -1e3] if mode == "flt" else [1.0, -1.0, 2.0 ** -20, -2.0 ** -20]
+            for b0 in fin:
+                reqs += [b0, step(b0, 1), step(b0, -1), b0 + cp, b0 - cp, b0 + (TINY if mode == "flt" else 4 * 2.0 ** -50),
+                         b0 - (TINY if mode == "flt" else 4 * 2.0 ** -50), b0 + 2 * cp, b0 - 2 * cp, b0 + pp / 2, b0 - pp / 2]
+            reqs += [start, 0.0]
+            rng.shuffle(reqs)
+            ops = ["ic.new 0 %s %s %d %d %s" % (H(lo), H(hi), il, iu, H(cp)),
+                   "p.new 0 1 %s 0 %s" % (H(start), H(0.0)), "p.mh 0 %d" % (n % 3), "p.msgs"]
+            half = len(reqs) // 2
+            for i, r in enumerate(reqs):
+                if i == half:
+                    ops += ["p.msgs", "p.prec 0 %s" % H(pp), "p.mh 0 %d" % ((n + 1) % 3), "p.copy 0 1", "p.set 1 %s" % H(reqs[0]), "p.msgs"]
+                ops.append("p.set 0 %s" % H(r))
+                if rng.random() < 0.2:
+                    ops.append("p.set 0 %s" % H(r))
+            # handlers travel with copy / assignment between auto-correcting parameters, not with Parameter::operator=
+            ops += ["p.msgs", "p.new 2 1 %s 0 %s" % (H(start), H(0.0)), "p.mh 2 1", "p.assign 2 1", "p.set 1 %s" % H(reqs[1]), "p.msgs",
+                    "p.new 3 0 %s 0 %s" % (H(start), H(0.0)), "p.assign 3 0", "p.set 0 %s" % H(reqs[-1]), "p.mh 3 1", "p.auto 3 2", "p.set 2 %s" % H(reqs[0]), "p.msgs"]
+            cases.append(["case au%d %s" % (len(cases), mode)] + ops)
+    return cases
+
+
+# --------------------------------------------------------------------------- constraints as shared objects
+def shared_case(rng, mode, idx, maxlen, unsafe):
+    """histories on the pointer model (BppModel/ParamShared.lean).  Registers 0,1 hold the objects that are
+    attached to parameters *by pointer* (p.news, p.setcs) or taken back from them (p.getc, p.rmcs);
+    registers 2,3 hold objects no parameter ever points to.  `unsafe = False`: only registers 2,3 are mutated
+    in place (theorem shared_detached_mutation_inv: the invariant must hold); `unsafe = True`: attached objects
+    are mutated too (shared_mutate_inv_iff; a rejected value held afterwards is the known finding
+    C01-shared-constraint-mutation).  After every in-place mutation every live parameter is inspected."""
+    vs = ValueSpace(rng, mode)
+    while vs.kind == "rat-tiny":
+        vs = ValueSpace(rng, mode)
+    ops = []
+    ivs = {}
+
+    def new_iv(k):
+        lo, hi, il, iu, pr = vs.interval()
+        if lo > hi:
+            lo, hi = hi, lo
+        ivs[k] = (lo, hi)
+        return "ic.new %d %s %s %d %d %s" % (k, H(lo), H(hi), il, iu, H(pr))
+
+    def inside(k):
+        lo, hi = ivs.get(k, (-1.0, 1.0))
+        if lo == -INF and hi == INF:
+            return vs.value()
+        if lo == -INF:
+            return hi - (1.0 if mode == "flt" else 0.25) * rng.randint(0, 3)
+        if hi == INF:
+            return lo + (1.0 if mode == "flt" else 0.25) * rng.randint(0, 3)
+        if vs.vals is not None:
+            ins = [v for v in vs.vals if lo <= v <= hi]
+            return rng.choice(ins) if ins else lo
+        return rng.uniform(lo, hi)
+
+    for k in range(4):
+        ops.append(new_iv(k))
+    live = set()
+    L = rng.randint(8, maxlen)
+    mut_regs = [0, 1, 2, 3] if unsafe else [2, 3]
+
+    def inspect():
+        for k in sorted(live):
+            ops.append("p.get %d" % k)
+
+    while len(ops) < L:
+        r = rng.random()
+        k = rng.randint(0, 3)
+        if not live or r < 0.14:
+            c = rng.choice(["0", "1", "0", "1", "-"])
+            au = 1 if rng.random() < 0.4 else 0
+            v = inside(int(c)) if c != "-" and rng.random() < 0.85 else vs.value()
+            opn = "p.news" if rng.random() < 0.8 else "p.new"
+            ops.append("%s %d %d %s %s %s" % (opn, k, au, H(v), c, H(rng.choice(vs.pprecs))))
+            live.add(k)
+            continue
+        k = rng.choice(sorted(live))
+        if r < 0.34:
+            # in-place mutation through a handle
+            i = rng.choice(mut_regs)
+            lo, hi = ivs.get(i, (-1.0, 1.0))
+            x = rng.random()
+            if x < 0.35:
+                b0 = rng.choice([vs.value(), lo, hi]) if abs(lo) != INF and abs(hi) != INF else vs.value()
+                ops.append("ic.setlo %d %s %d" % (i, H(b0), rng.randint(0, 1)))
+                ivs[i] = (b0, hi)
+            elif x < 0.7:
+                b0 = rng.choice([vs.value(), lo, hi]) if abs(lo) != INF and abs(hi) != INF else vs.value()
+                ops.append("ic.sethi %d %s %d" % (i, H(b0), rng.randint(0, 1)))
+                ivs[i] = (lo, b0)
+            elif x < 0.9:
+                j = rng.choice([a for a in range(4) if a != i])
+                ops.append("ic.interas %d %d" % (i, j))
+                l2, h2 = ivs.get(j, (-1.0, 1.0))
+                ivs[i] = (max(lo, l2), min(hi, h2))
+            else:
+                a, b = sorted([rng.randint(-2, 3), rng.randint(-2, 3)])
+                d = rng.choice(["[", "]"]) + "%d;%d" % (a, b) + rng.choice(["[", "]"])
+                ops.append("ic.parse %d %s" % (i, S(d)))
+                ivs[i] = (float(a), float(b))
+            inspect()
+        elif r < 0.55:
+            v = inside(rng.choice([0, 1])) if rng.random() < 0.7 else vs.value()
+            ops.append("p.set %d %s" % (k, H(v)))
+        elif r < 0.63:
+            ops.append("p.setcs %d %s" % (k, rng.choice(["0", "1", "-"])))
+        elif r < 0.66:
+            ops.append("p.setc %d %s" % (k, rng.choice(["0", "1", "2", "3"])))
+        elif r < 0.72:
+            # the handle of a parameter's constraint goes into register 0 or 1
+            i = rng.randint(0, 1)
+            ops.append(("p.getc %d %d" if rng.random() < 0.7 else "p.rmcs %d %d") % (k, i))
+            ivs.pop(i, None)
+        elif r < 0.80:
+            j = rng.randint(0, 3)
+            ops.append("p.copy %d %d" % (k, j))
+            live.add(j)
+        elif r < 0.85:
+            j = rng.choice(sorted(live))
+            ops.append("p.assign %d %d" % (k, j))
+        elif r < 0.88:
+            j = rng.randint(0, 3)
+            ops.append("p.auto %d %d" % (k, j))
+            live.add(j)
+        elif r < 0.91:
+            ops.append("p.prec %d %s" % (k, H(rng.choice(vs.pprecs))))
+        elif r < 0.94:
+            i = rng.randint(0, 1)
+            ops.append("ic.alias %d %d" % (i, 1 - i))
+            if i in ivs:
+                ivs[1 - i] = ivs[i]
+        elif r < 0.97:
+            i = rng.randint(0, 3)
+            ops.append(new_iv(i))      # a new object in the register; the old one lives on where it is attached
+        else:
+            ops.append("p.rmc %d" % k)
+    inspect()
+    return ["case %s%d shared %s %s" % ("shm" if unsafe else "shs", idx, vs.kind, mode)] + ops
 
 
 # --------------------------------------------------------------------------- descriptions
@@ -312,6 +497,12 @@ def generate(seed, tier):
         cases += interval_cases(mode, tier)
         cases += inter_cases(mode, tier, rng)
     cases += describe_cases(rng, tier)
+    for mode in ("rat", "flt"):
+        cases += auto_cases(mode, tier, rng)
+    ns = 6000 if tier == "thorough" else 1200
+    for i in range(ns):
+        mode = "flt" if i % 2 else "rat"
+        cases.append(shared_case(rng, mode, i, 30 if tier != "thorough" else 40, unsafe=(i % 3 == 2)))
     nh = 100000 if tier == "thorough" else 10000
     for i in range(nh):
         mode = "flt" if i % 2 else "rat"
@@ -357,6 +548,28 @@ def coverage_extra(cases, answers):
                     rejected += 1
                 elif len(t) > 2 and t[0] == "ok" and t[2] != l.split()[2]:
                     corrected += 1
-    return {"cases_by_mode": modes, "history_kinds": kinds, "param_ops": param_ops,
+    shared = {"cases": 0, "cases_mutating_attached_objects": 0, "in_place_mutations": 0, "pointer_attachments": 0,
+              "handles_taken_back": 0, "auto_directed_cases": 0, "message_lines_captured": 0}
+    for c, a in zip(cases, answers):
+        head = c[0].split()
+        if head[1].startswith("au"):
+            shared["auto_directed_cases"] += 1
+        ops = [l for l in c if not l.startswith("case")]
+        for l, r in zip(ops, a or []):
+            if l.startswith("p.msgs") and r.split()[:1] and r.split()[0].isdigit():
+                shared["message_lines_captured"] += int(r.split()[0])
+        if "shared" not in head:
+            continue
+        shared["cases"] += 1
+        if head[1].startswith("shm"):
+            shared["cases_mutating_attached_objects"] += 1
+        for l in ops:
+            if l.startswith(("ic.setlo", "ic.sethi", "ic.interas", "ic.parse")):
+                shared["in_place_mutations"] += 1
+            elif l.startswith(("p.news", "p.setcs")):
+                shared["pointer_attachments"] += 1
+            elif l.startswith(("p.getc", "p.rmcs")):
+                shared["handles_taken_back"] += 1
+    return {"cases_by_mode": modes, "history_kinds": kinds, "param_ops": param_ops, "shared_and_auto": shared,
             "param_ops_raised_fraction": round(raised_param / param_ops, 4) if param_ops else 0.0,
             "setValue_calls": psets, "setValue_rejected": rejected, "setValue_ended_on_other_value": corrected}
